@@ -20,7 +20,7 @@ C={
  "C12":("IN","exhaustive enumeration of values x destination sizes; all serialisation paths compared bytewise with the reference encoding","value alphabets"),
  "C13":("IN","exhaustive ports / byte-lane walks / lane pairs (all 2^32 IPv4 in thorough) vs RFC 8489 14.2 reference","IPv6/tid beyond lane and lane-pair walks"),
  "C14":("SM","exhaustive enumeration of frame sequences x all chunkings x pull schedules (no dedup: TcpBuffer state is not observable) vs reference framing","frame lengths alphabet; <= 3 frames"),
- "C15":("SM","explicit-state BFS over multi-source histories (and a stays-validated slice over every other API call) vs reference validated-peer set; enumerated long histories with up to 1100 (4200 thorough) distinct peers of five address families","depth bound"),
+ "C15":("SM","explicit-state BFS over multi-source histories (and a stays-validated slice over every other API call) vs reference validated-peer set; enumerated long histories with up to 10000 (70000 thorough) distinct peers of five address families","depth bound"),
  "C16":("IN","exhaustive enumeration: request messages x every verdict-relevant supported/required subset (all 2^9 x 2^9 for messages of <= 2 attributes), requests with 1..=400 unknown attributes and the response constructors called directly vs RFC 8489 6.3.1 reference verdict","type universe of 9"),
  "C17":("IN","every well-formed message of the family x every cut point (messages up to 65552 bytes: stated cut-point subset); header decoder on all type fields, all length fields, cookie bits and transaction-id lanes","message family"),
  "C18":("SM","explicit-state BFS; every Transmit (also after into_owned) compared with the harness' own serialisation and addressing; single-transaction schedules with reconfiguration / cancel_retransmissions / foreign traffic at every position; addressing matrix of 21 x 21 local / destination addresses x 4 message kinds; enumerated long histories with 1..=300 concurrent requests","depth bound; two payload shapes"),
